@@ -57,7 +57,7 @@ var c03Undecided = []TV{{K: "nil*Item"}, {K: "nilslice"}, {K: "nilmap"},
 var c03UniformOnly = []TV{{K: "string", S: "false"}, {K: "string", S: "true"}, {K: "string", S: "FALSE"}, {K: "*bool"}}
 
 // incmember / shortmember: the chain members are include tags / shorthand component tags themselves (a conditional include)
-var c03Placements = []string{"top", "nested", "for", "template", "ws", "comment", "adjacent", "beforefor", "table", "component", "slot", "layout", "incmember", "shortmember"}
+var c03Placements = []string{"top", "nested", "for", "template", "ws", "comment", "adjacent", "beforefor", "table", "component", "slot", "layout", "incmember", "shortmember", "slotmember", "tvhtml"}
 
 type c03 struct{}
 
@@ -74,7 +74,7 @@ func init() {
 
 func (p *c03) ID() string { return "C03" }
 func (p *c03) Rule() string {
-	return "chain part: every shape v-if + k x v-else-if (k<=2 quick, k<=3 thorough) with/without v-else x every truth assignment x 14 placements (the chain members being include tags / shorthand component tags themselves, top, nested, inside v-for with per-item conditions, on <template>, whitespace/comment between members, two adjacent chains, chain directly before a v-for sibling, inside table rows, inside an included component, inside slot content, inside a layout) x condition form (bare, negated) x a rotation through all Go value kinds realising each truth value; lazy part: every chain of 1-3 v-else-if (with/without v-else) x every position of the first truthy member that is followed by a v-else-if x later conditions that call a function returning an error / a counting function x {top, v-for, <template>, component}: the taken branch is rendered and the render does not fail; uniform part: every value of the truthy/falsy/undecided catalogue (all numeric widths, strings incl. \"0\" and \"false\", nil, missing, pointers, slices, maps, structs) x {v, o.v, v as the item of a loop whose variable shadows a truthy outer v} read in v-if, v-else-if, v-show, :attr, :class object and their negations in v-if/v-else-if/v-show; non-trivial = every generated case (each has a condition decided by data); distinct by (shape, placement, form, values)"
+	return "chain part: every shape v-if + k x v-else-if (k<=2 quick, k<=3 thorough) with/without v-else x every truth assignment x 16 placements (the chain members being include tags / shorthand component tags / <slot> elements of a component / <template v-html> tags themselves, top, nested, inside v-for with per-item conditions, on <template>, whitespace/comment between members, two adjacent chains, chain directly before a v-for sibling, inside table rows, inside an included component, inside slot content, inside a layout) x condition form (bare, negated) x a rotation through all Go value kinds realising each truth value; lazy part: every chain of 1-3 v-else-if (with/without v-else) x every position of the first truthy member that is followed by a v-else-if x later conditions that call a function returning an error / a counting function x {top, v-for, <template>, component}: the taken branch is rendered and the render does not fail; uniform part: every value of the truthy/falsy/undecided catalogue (all numeric widths, strings incl. \"0\" and \"false\", nil, missing, pointers, slices, maps, structs) x {v, o.v, v as the item of a loop whose variable shadows a truthy outer v} read in v-if, v-else-if, v-show, :attr, :class object and their negations in v-if/v-else-if/v-show; non-trivial = every generated case (each has a condition decided by data); distinct by (shape, placement, form, values)"
 }
 
 func (p *c03) maxK(ctx core.Ctx) int { return ctx.Pick(2, 3) }
@@ -238,7 +238,7 @@ func (p *c03) Exec(ctx core.Ctx, cc any) core.Obs {
 	withComponents := false
 	tag := "p"
 	switch c.Placement {
-	case "top", "nested", "ws", "comment", "template", "beforefor", "table", "memberfor", "component", "slot", "layout", "incmember", "shortmember":
+	case "top", "nested", "ws", "comment", "template", "beforefor", "table", "memberfor", "component", "slot", "layout", "incmember", "shortmember", "slotmember", "tvhtml":
 		c03Data(c.Vals, "c", data)
 		sep := ""
 		switch c.Placement {
@@ -272,6 +272,32 @@ func (p *c03) Exec(ctx core.Ctx, cc any) core.Obs {
 		}
 		want = append(want, "post")
 		switch c.Placement {
+		case "slotmember", "tvhtml":
+			re := regexp.MustCompile(`<p (v-if="[^"]*"|v-else-if="[^"]*"|v-else) data-m="([^"]*)">x</p>`)
+			if c.Placement == "tvhtml" {
+				// the members are <template v-html> tags: the chosen one prints its markup in place
+				tpl = `<section data-m="wrap">` + pre + re.ReplaceAllString(chain, `<template $1 v-html="markup['$2']"></template>`) + post + `</section>`
+				mk := map[string]any{}
+				for _, m := range re.FindAllStringSubmatch(chain, -1) {
+					mk[m[2]] = `<p data-m="` + m[2] + `">x</p>`
+				}
+				data["markup"] = mk
+				break
+			}
+			// the members are <slot> elements of a component; the page supplies every one of them
+			var supply strings.Builder
+			for _, m := range re.FindAllStringSubmatch(chain, -1) {
+				fmt.Fprintf(&supply, `<template #%s><p data-m="%s">x</p></template>`, strings.ReplaceAll(m[2], "+", "x"), m[2])
+			}
+			comp := re.ReplaceAllStringFunc(chain, func(x string) string {
+				m := re.FindStringSubmatch(x)
+				return `<slot ` + m[1] + ` name="` + strings.ReplaceAll(m[2], "+", "x") + `">fallback-` + m[2] + `</slot>`
+			})
+			props := ""
+			for k := range data {
+				props += fmt.Sprintf(` :%s="%s"`, k, k)
+			}
+			files = map[string]string{"page.vuego": `<template include="c.vuego"` + props + `>` + supply.String() + `</template>`, "c.vuego": `<section data-m="wrap">` + pre + comp + post + `</section>`}
 		case "incmember", "shortmember":
 			// <p DIR data-m="M">x</p>  ->  an include of a component that renders <p data-m="M">
 			re := regexp.MustCompile(`<p (v-if="[^"]*"|v-else-if="[^"]*"|v-else) data-m="([^"]*)">x</p>`)
